@@ -99,6 +99,22 @@ theorem C19_setUInt_refuses_unfit (w : Bits) (v n pos : Nat) (h : 2 ^ n ≤ v) :
   · simp [hn]
   · simp [hn, h]
 
+/-- the overwrite as Python calls it (any integer): a negative value is refused - never stored as its
+    two's complement - and a non-negative one behaves as `setUInt` -/
+theorem C19_setUInt_refuses_negative (w : Bits) (v : Int) (n pos : Nat) (h : v < 0) :
+    setUIntZ w v n pos = .error .other := by
+  unfold setUIntZ
+  simp [h]
+
+theorem C19_setUIntZ_nonneg (w : Bits) (v : Int) (n pos : Nat) (h : 0 ≤ v) :
+    setUIntZ w v n pos = setUInt w v.toNat n pos := by
+  unfold setUIntZ
+  have : ¬ v < 0 := by omega
+  simp [this]
+
+example : setUIntZ [true, false, true] (-1) 2 1 = .error .other := by decide
+example : setUIntZ [true, false, true] 3 2 1 = .ok [true, true, true] := by decide
+
 theorem C19_writeInt_refuses_unfit (w : Bits) (v : Int) (n : Nat) (h : 2 ^ (n - 1) ≤ v.natAbs) :
     writeInt w v n = .error .other := by
   unfold writeInt
